@@ -384,3 +384,223 @@ pub mod parser {
         }
     }
 }
+
+/// B+tree and pager entry points with a raw page-graph dump (tree::bplustree, io::pager).
+pub mod tree {
+    use super::tuple::Sch;
+    use crate::DBConfig;
+    use crate::io::pager::{Pager, SharedPager};
+    use crate::storage::core::traits::{BtreeMetadata, BtreeOps};
+    use crate::storage::page::{BtreePage, OverflowPage};
+    use crate::storage::tuple::{Row, Tuple, TupleBuilder, TupleReader, TupleRef};
+    use crate::tree::accessor::{Accessor, BtreePagePosition, BtreeWriteAccessor, Position};
+    use crate::tree::bplustree::{Btree, SearchResult};
+    use crate::types::{DataType, PageId};
+    use std::path::Path;
+
+    /// One B+tree page as stored: cells in slot order with their decoded rows.
+    pub struct PageDump {
+        pub id: u64,
+        pub leaf: bool,
+        /// `(row, left child, first overflow page)` per cell
+        pub cells: Vec<(Result<Vec<DataType>, String>, Option<u64>, Option<u64>)>,
+        pub right_child: Option<u64>,
+        pub prev: Option<u64>,
+        pub next: Option<u64>,
+        pub free_space: u32,
+        pub free_space_pointer: u32,
+        pub used_bytes: usize,
+        pub capacity: usize,
+    }
+
+    pub struct Tree {
+        pager: SharedPager,
+        root: PageId,
+        schema: Sch,
+        min_keys: usize,
+        siblings: usize,
+    }
+
+    impl Tree {
+        pub fn create(
+            path: &Path,
+            page_size: usize,
+            cache_size: usize,
+            min_keys: usize,
+            siblings: usize,
+            schema: Sch,
+        ) -> Result<Self, String> {
+            let config = DBConfig {
+                page_size,
+                min_keys_per_page: min_keys,
+                num_siblings_per_side: siblings,
+                cache_size,
+                pool_size: 1,
+            };
+            let pager = Pager::from_config(config, path).map_err(|e| e.to_string())?;
+            let pager = SharedPager::from(pager);
+            let root = pager.write().allocate_page::<BtreePage>().map_err(|e| e.to_string())?;
+            Ok(Tree { pager, root, schema, min_keys, siblings })
+        }
+
+        fn tree(&self) -> Btree<BtreeWriteAccessor> {
+            Btree::new(self.root, self.pager.clone(), self.min_keys, self.siblings)
+        }
+
+        fn tuple(&self, row: Vec<DataType>) -> Result<Tuple, String> {
+            TupleBuilder::from_schema(&self.schema.0)
+                .build(&Row::new(row.into_boxed_slice()), 0)
+                .map_err(|e| e.to_string())
+        }
+
+        fn decode(&self, t: &Tuple) -> Result<Vec<DataType>, String> {
+            let layout = TupleReader::from_schema(&self.schema.0)
+                .parse_last_version(t.effective_data())
+                .map_err(|e| e.to_string())?;
+            TupleRef::new(t.effective_data(), layout)
+                .to_row_with(&self.schema.0)
+                .map(|r| r.into_inner().into_vec())
+                .map_err(|e| e.to_string())
+        }
+
+        pub fn insert(&mut self, row: Vec<DataType>) -> Result<(), String> {
+            let t = self.tuple(row)?;
+            self.tree().insert(self.root, t, &self.schema.0).map_err(|e| e.to_string())
+        }
+        pub fn upsert(&mut self, row: Vec<DataType>) -> Result<(), String> {
+            let t = self.tuple(row)?;
+            self.tree().upsert(self.root, t, &self.schema.0).map_err(|e| e.to_string())
+        }
+        pub fn update(&mut self, row: Vec<DataType>) -> Result<(), String> {
+            let t = self.tuple(row)?;
+            self.tree().update(self.root, t, &self.schema.0).map_err(|e| e.to_string())
+        }
+        /// `row` carries the key columns (values are ignored by the search).
+        pub fn remove(&mut self, row: Vec<DataType>) -> Result<(), String> {
+            let t = self.tuple(row)?;
+            self.tree().remove_tuple(self.root, &t, &self.schema.0).map_err(|e| e.to_string())
+        }
+        pub fn get(&mut self, row: Vec<DataType>) -> Result<Option<Vec<DataType>>, String> {
+            let t = self.tuple(row)?;
+            let mut tree = self.tree();
+            let r = match tree.search_tuple(&t, &self.schema.0).map_err(|e| e.to_string())? {
+                SearchResult::Found(pos) => {
+                    let found = tree.get_tuple_at_unchecked(pos, &self.schema.0).map_err(|e| e.to_string())?;
+                    Some(self.decode(&found)?)
+                }
+                SearchResult::NotFound(_) => None,
+            };
+            tree.accessor_mut().map_err(|e| e.to_string())?.clear();
+            Ok(r)
+        }
+        /// Forward scan through the leaf chain.
+        pub fn scan(&mut self) -> Result<Vec<Vec<DataType>>, String> {
+            let mut tree = self.tree();
+            if tree.is_empty().map_err(|e| e.to_string())? {
+                return Ok(Vec::new());
+            }
+            let mut out = Vec::new();
+            let positions: Vec<BtreePagePosition> = tree
+                .iter_forward()
+                .map_err(|e| e.to_string())?
+                .collect::<Result<Vec<_>, _>>()
+                .map_err(|e| e.to_string())?;
+            for pos in positions {
+                let t = tree.get_tuple_at_unchecked(pos, &self.schema.0).map_err(|e| e.to_string())?;
+                out.push(self.decode(&t)?);
+            }
+            Ok(out)
+        }
+        pub fn dealloc(&mut self) -> Result<(), String> {
+            self.tree().dealloc().map_err(|e| e.to_string())
+        }
+        pub fn root(&self) -> u64 {
+            self.root
+        }
+
+        /// Every B+tree page reachable from the root through child pointers, breadth first.
+        pub fn dump(&mut self) -> Result<Vec<PageDump>, String> {
+            let mut tree = self.tree();
+            let mut out = Vec::new();
+            let mut queue = std::collections::VecDeque::from([self.root]);
+            let mut seen = std::collections::HashSet::new();
+            while let Some(id) = queue.pop_front() {
+                if !seen.insert(id) || out.len() > 100_000 {
+                    continue;
+                }
+                let (leaf, n, right_child, prev, next, free_space, fsp, used, capacity, children, overflows) = {
+                    let page = tree.get_page(id).map_err(|e| e.to_string())?;
+                    let n = page.num_slots();
+                    let children: Vec<Option<PageId>> = (0..n).map(|i| page.cell(i).left_child()).collect();
+                    let overflows: Vec<Option<PageId>> = (0..n).map(|i| page.cell(i).overflow_page()).collect();
+                    (
+                        page.is_leaf(),
+                        n,
+                        page.right_child(),
+                        page.prev_sibling(),
+                        page.next_sibling(),
+                        page.free_space(),
+                        page.free_space_pointer(),
+                        page.used_bytes(),
+                        page.capacity(),
+                        children,
+                        overflows,
+                    )
+                };
+                let mut cells = Vec::with_capacity(n);
+                for i in 0..n {
+                    let row = tree
+                        .get_tuple_at_unchecked(Position::new(id, i), &self.schema.0)
+                        .map_err(|e| e.to_string())
+                        .and_then(|t| self.decode(&t));
+                    cells.push((row, children[i], overflows[i]));
+                    if !leaf {
+                        if let Some(c) = children[i] {
+                            queue.push_back(c);
+                        }
+                    }
+                }
+                if !leaf {
+                    if let Some(c) = right_child {
+                        queue.push_back(c);
+                    }
+                }
+                out.push(PageDump { id, leaf, cells, right_child, prev, next, free_space, free_space_pointer: fsp, used_bytes: used, capacity, });
+            }
+            tree.accessor_mut().map_err(|e| e.to_string())?.clear();
+            Ok(out)
+        }
+
+        /// Pages of the overflow chain starting at `first`.
+        pub fn overflow_chain(&self, first: u64) -> Result<Vec<u64>, String> {
+            let mut out = Vec::new();
+            let mut cur = Some(first);
+            while let Some(id) = cur {
+                if out.len() > 100_000 {
+                    return Err("overflow chain does not end".into());
+                }
+                out.push(id);
+                cur = self
+                    .pager
+                    .write()
+                    .with_page::<OverflowPage, _, _>(id, |p| p.next())
+                    .map_err(|e| e.to_string())?;
+            }
+            Ok(out)
+        }
+
+        /// `(total pages, free-list head, free-list tail, free list as linked)`
+        pub fn free_list(&self) -> Result<(u64, Option<u64>, Option<u64>, Vec<u64>), String> {
+            let (total, head, tail) = {
+                let p = self.pager.read();
+                let h = p.header_unchecked();
+                (h.total_pages, h.first_free_page, h.last_free_page)
+            };
+            let list = match head {
+                Some(h) => self.overflow_chain(h)?,
+                None => Vec::new(),
+            };
+            Ok((total, head, tail, list))
+        }
+    }
+}
